@@ -318,6 +318,11 @@ def run(prog, rep, tier):
     check_dead_computations(prog, rep, ['tenpy/tools/math.py', 'tenpy/linalg/svd_robust.py', 'tenpy/linalg/np_conserved.py'])
     rep.rule('FACT-numpy-roles', 'dtype never in an integer slot of np.eye / np.tri / np.diag')
     check_numpy_roles(prog, rep, ['tenpy/linalg/np_conserved.py', 'tenpy/tools/math.py', 'tenpy/linalg/svd_robust.py', 'tenpy/linalg/truncation.py', 'tenpy/linalg/charges.py'])
+    rep.rule('FACT-search-flag', 'values left by a search loop are re-assigned on the not-found path')
+    if check_search_flag(prog, rep, ['tenpy/linalg/np_conserved.py', 'tenpy/tools/math.py', 'tenpy/linalg/charges.py']) < 1:
+        raise AnalysisError('FACT-search-flag: the block search of speigs not found')
+    rep.rule('FACT-triangular', 'typestate of the R factor of qr_li on the CFG')
+    check_triangular(prog, rep)
     return rep.finish(
         level='other',
         explanation='Charge compatibility of the new internal leg decided exhaustively over '
@@ -363,4 +368,161 @@ def check_numpy_roles(prog, rep, rels):
                                       'passed as dtype=...: TypeError when this line runs' %
                                       (unparse(c)[:60], k + 1, fn), c.lineno)
     rep.instance('FACT-numpy-roles', {'constructor_calls': n})
+    return n
+
+
+# ------------------------------------------------------------------ FACT-search-flag
+def check_search_flag(prog, rep, rels):
+    """FACT-search-flag: the pattern `found = False; for ..: x = ..; if no match: continue;
+    found = True; break` followed by `if not found: <fallback>`. On the fallback path the values
+    the loop left in its variables belong to items that did NOT match; every such variable that
+    is read after the fallback block has to be re-assigned inside it (or the block raises)."""
+    n = 0
+    for rel in rels:
+        m = prog.module(rel)
+        for q, f in m.functions.items():
+            blocks = [f.body] + [getattr(s, fld) for s in ast.walk(f) for fld in ('body', 'orelse')
+                                 if isinstance(getattr(s, fld, None), list) and s is not f]
+            for blk in blocks:
+                # the same search written as `for ..: .. break` + `else:` (not-found path)
+                for j, loop in enumerate(blk):
+                    if not (isinstance(loop, ast.For) and loop.orelse and any(
+                            isinstance(x, ast.Break) for x in ast.walk(loop))):
+                        continue
+                    loop_vars = {x.id for b_ in loop.body for x in ast.walk(b_)
+                                 if isinstance(x, ast.Name) and isinstance(x.ctx, ast.Store)}
+                    loop_vars |= {x.id for x in ast.walk(loop.target) if isinstance(x, ast.Name)}
+                    after = set()
+                    for s2 in blk[j + 1:]:
+                        after |= {x.id for x in ast.walk(s2) if isinstance(x, ast.Name) and
+                                  isinstance(x.ctx, ast.Load)}
+                    redefined = {x.id for b_ in loop.orelse for x in ast.walk(b_)
+                                 if isinstance(x, ast.Name) and isinstance(x.ctx, ast.Store)}
+                    raises = isinstance(loop.orelse[-1], ast.Raise)
+                    n += 1
+                    stale = sorted((loop_vars & after) - redefined)
+                    rep.instance('FACT-search-flag', {'function': q, 'form': 'for-else',
+                                                      'loop_variables_read_later': sorted(
+                                                          loop_vars & after),
+                                                      'else_raises': raises})
+                    if stale and not raises:
+                        rep.violation('FACT-search-flag', m, q,
+                                      'stale-after-search:' + ','.join(stale),
+                                      'when the search loop finds nothing its `else` block does '
+                                      'not re-assign %s, which the code after it reads: it still '
+                                      'holds the value of the last item that did not match' %
+                                      stale, loop.orelse[0].lineno)
+                for i, st in enumerate(blk):
+                    if not (isinstance(st, ast.Assign) and isinstance(st.value, ast.Constant) and
+                            st.value.value is False and isinstance(st.targets[0], ast.Name)):
+                        continue
+                    flag = st.targets[0].id
+                    loops = [(j, s) for j, s in enumerate(blk[i + 1:], i + 1)
+                             if isinstance(s, (ast.For, ast.While)) and any(
+                                 isinstance(x, ast.Assign) and isinstance(x.value, ast.Constant)
+                                 and x.value.value is True and unparse(x.targets[0]) == flag
+                                 for x in ast.walk(s))]
+                    if not loops:
+                        continue
+                    j, loop = loops[0]
+                    fb = [(k, s) for k, s in enumerate(blk[j + 1:], j + 1) if isinstance(s, ast.If)
+                          and unparse(s.test) in ('not ' + flag, flag + ' is False',
+                                                  flag + ' == False')]
+                    if not fb:
+                        continue
+                    k, fallback = fb[0]
+                    loop_vars = {x.id for x in ast.walk(loop) if isinstance(x, ast.Name) and
+                                 isinstance(x.ctx, ast.Store)} - {flag}
+                    # variables only bound after the match test belong to the matching item
+                    after = set()
+                    for s in blk[k + 1:]:
+                        after |= {x.id for x in ast.walk(s) if isinstance(x, ast.Name) and
+                                  isinstance(x.ctx, ast.Load)}
+                    redefined = {x.id for x in ast.walk(fallback) if isinstance(x, ast.Name) and
+                                 isinstance(x.ctx, ast.Store)}
+                    raises = bool(fallback.body) and isinstance(fallback.body[-1], ast.Raise)
+                    n += 1
+                    stale = sorted((loop_vars & after) - redefined)
+                    # values bound only together with the flag are defined on the found path only:
+                    # reading them after a fallback that does not define them is the same defect
+                    rep.instance('FACT-search-flag', {'function': q, 'flag': flag,
+                                                      'loop_variables_read_later': sorted(
+                                                          loop_vars & after),
+                                                      'redefined_in_fallback': sorted(
+                                                          redefined & loop_vars)})
+                    if stale and not raises:
+                        rep.violation('FACT-search-flag', m, q, 'stale-after-search:' + ','.join(stale),
+                                      'when the search loop finds nothing (`%s` stays False) the '
+                                      'fallback block does not re-assign %s, which the code after '
+                                      'it reads: it still holds the value of the last item that '
+                                      'did not match' % (flag, stale), fallback.lineno)
+    return n
+
+
+# ------------------------------------------------------------------ FACT-triangular
+def check_triangular(prog, rep):
+    """FACT-triangular: typestate of the R factor in tools.math.qr_li ("upper right R"). A value is
+    TRIANGULAR when it is the R output of scipy.linalg.qr (or a selection of ROWS of such a
+    value); a column permutation `R[:, perm]` destroys the state. Forward dataflow on the CFG
+    (join = not triangular unless both are); the R that is returned must be TRIANGULAR on every
+    path."""
+    from ..cfg import CFG
+    m = prog.module('tenpy/tools/math.py')
+    f = m.functions.get('qr_li')
+    if f is None:
+        raise AnalysisError('tools.math.qr_li not found')
+    rep.unit(m)
+    cfg = CFG(f)
+
+    def value_state(v, st):
+        if isinstance(v, ast.Name):
+            return st.get(v.id, False)
+        if isinstance(v, ast.Subscript) and isinstance(v.slice, ast.Tuple) and \
+                len(v.slice.elts) == 2:
+            rows, cols = v.slice.elts
+            full = lambda s: isinstance(s, ast.Slice) and s.lower is None and s.upper is None \
+                and s.step is None
+            if full(cols):
+                return value_state(v.value, st)       # selection of rows
+            return False                               # columns selected / permuted
+        return False
+
+    def transfer(n, st):
+        s = n.stmt
+        if not isinstance(s, ast.Assign) or len(s.targets) != 1:
+            return st
+        d = dict(st)
+        t, v = s.targets[0], s.value
+        if isinstance(t, ast.Tuple) and isinstance(v, ast.Call) and \
+                (dotted(v.func) or '').endswith('linalg.qr'):
+            names = [e.id for e in t.elts if isinstance(e, ast.Name)]
+            for i, nm in enumerate(names):
+                d[nm] = (i == 1)                       # (Q, R[, P]): R is triangular
+        elif isinstance(t, ast.Name):
+            d[t.id] = value_state(v, st)
+        return tuple(sorted(d.items()))
+
+    def join(a, b):
+        da, db = dict(a), dict(b)
+        return tuple(sorted((k, da.get(k, False) and db.get(k, False))
+                            for k in set(da) | set(db)))
+    sin, _ = cfg.forward((), lambda n, s_: transfer(n, dict(s_)), join)
+    n = 0
+    for node in cfg.nodes:
+        r = node.stmt
+        if not (isinstance(r, ast.Return) and isinstance(r.value, ast.Tuple) and
+                len(r.value.elts) == 2):
+            continue
+        st = dict(sin.get(node.id, ()))
+        ok = value_state(r.value.elts[1], st)
+        n += 1
+        rep.instance('FACT-triangular', {'return': key_text(r), 'R_is_triangular': bool(ok)})
+        if not ok:
+            rep.violation('FACT-triangular', m, 'qr_li', 'R-not-triangular:' + key_text(r)[:40],
+                          '`%s`: on this path the second factor is not the R of a QR '
+                          'factorisation any more (columns were permuted back after the '
+                          'pivoted factorisation): the documented upper-right form is lost' %
+                          key_text(r), r.lineno)
+    if n < 2:
+        raise AnalysisError('qr_li: returns not found')
     return n
